@@ -1,5 +1,5 @@
 """C04 - base height = configured percentile, inside the layer, never coded upward (structural part)."""
-from sa.rules import baseheight, wmo, metarize
+from sa.rules import baseheight, wmo, metarize, rounding
 
 LEVEL = 'other'
 
@@ -12,6 +12,7 @@ def check(ctx):
     wmo.height2code_kernel(ctx, 'C04-R5')
     metarize.sorted_before_significance(ctx, 'C04-R6')
     baseheight.fluffiness_sign(ctx, 'C04-R7')
+    rounding.lookback_rounding(ctx, 'C04-R8')
     ctx.undecided += ['numerical equality with the percentile; finiteness of the LOWESS output',
                       'flooring within one ulp of a x00 ft boundary (exact-real model)',
                       'that np.percentile of a non-empty selection lies between its minimum and maximum (A1)']
